@@ -397,8 +397,9 @@ def render_segment(st, seg, singular=False):
             return (pre or ".") + "*"
     st.tag("seg:%s-bracket%d" % (kind, min(len(sels), 3)))
     if singular:
-        # singular-query segments: no blank space inside the brackets (strict ABNF)
-        return pre + "[" + render_selector(st, sels[0]) + "]"
+        # singular-query segments: no blank space inside the brackets (strict ABNF).
+        # (A non-singular query in comparand position is rendered completely: it must be rejected.)
+        return pre + "[" + ",".join(render_selector(st, s) for s in sels) + "]"
     body = (st.s("sel-before-comma") + "," + st.s("sel-after-comma")).join(render_selector(st, s) for s in sels) \
         if len(sels) > 1 else render_selector(st, sels[0])
     return pre + "[" + st.s("bracket-after-open") + body + st.s("bracket-before-close") + "]"
@@ -507,6 +508,21 @@ def names_of(q, out=None):
             elif s[0] == "filter":
                 ex(s[1])
     return out
+
+
+def representable_literals(q):
+    """All number literals exactly representable and renderable."""
+    from ..oracle.typing import literals_of
+    for v in literals_of(q):
+        if isinstance(v, bool) or not isinstance(v, (int, float)):
+            continue
+        if isinstance(v, int) and abs(v) > MAX_SAFE:
+            return False
+        if isinstance(v, float) and (math.isinf(v) or math.isnan(v)):
+            return False
+        if not number_spellings(v):
+            return False
+    return True
 
 
 def representable(q):
